@@ -177,6 +177,10 @@ theorem rtp_identity (P : Pose ℝ) : P.rotateTranslatePose (Pose.identity : Pos
   rw [rotateTranslatePose_real]; simp only [Pose.identity]; rw [M3.mul_one, M3.mulVec_zero]
   ext <;> simp [V3.add, V3.zero]
 
+theorem scale_real (P : Pose ℝ) (k : ℝ) : P.scale k = ⟨P.R, V3.smul k P.t⟩ := rfl
+
+theorem scale_rigid {P : Pose ℝ} (hP : P.IsRigid) (k : ℝ) : (P.scale k).IsRigid := hP
+
 /-- a rigid pose preserves distances between points -/
 theorem rt_dist {P : Pose ℝ} (hP : P.IsRigid) (p q : V3 ℝ) :
     V3.dot (V3.sub (P.rotateTranslate p) (P.rotateTranslate q)) (V3.sub (P.rotateTranslate p) (P.rotateTranslate q)) =
